@@ -511,6 +511,15 @@ def mutate(data: bytes, ops) -> bytes:
                 b[op[1]] = (b[op[1]] + op[2]) & 0xFF
         elif name == "prepend":
             b = bytearray(bytes.fromhex(op[1])) + b
+        elif name == "fixcrc_rtu":   # recompute the RTU CRC (frame = AA55 + rtu + crc) after other edits
+            if len(b) >= 5:
+                from .codec import crc_bytes
+                b[-2:] = crc_bytes(bytes(b[2:-2]))
+        elif name == "fixsum_aa55":
+            if len(b) >= 3:
+                from .codec import sum16
+                sm = sum16(bytes(b[:-2]))
+                b[-2:] = bytes((sm >> 8, sm & 0xFF))
         else:
             raise HarnessError(f"mutate op {name}")
     return bytes(b)
